@@ -136,6 +136,11 @@ var catalogPool = []SymImport{
 	{Name: "A", Version: 3, Symbols: []string{"a1", "x2", "a3", "a4", "a5", "a6"}},
 	{Name: "B", Version: 1, Symbols: []string{"b1", "b2"}},
 	{Name: "B", Version: 2, Symbols: []string{"b1", "b2", "a1"}},
+	// versions with different digit counts: "latest" is numeric, not lexicographic or by insertion order
+	{Name: "D", Version: 9, Symbols: []string{"d1", "d2_v9"}},
+	{Name: "D", Version: 100, Symbols: []string{"d1", "d2_v100", "d3_v100", "d4_v100"}},
+	{Name: "D", Version: 10, Symbols: []string{"d1", "d2_v10", "d3_v10"}},
+	{Name: "D", Version: 2, Symbols: []string{"d1"}},
 }
 
 func (h *histGen) lstSpec() (refsym.LSTSpec, string) {
@@ -153,6 +158,10 @@ func (h *histGen) lstSpec() (refsym.LSTSpec, string) {
 				name = []string{"A", "B"}[r.Intn(2)]
 			}
 			imp := refsym.Import{Name: name, Version: r.Intn(4), MaxID: -1}
+			if r.Intn(5) == 0 {
+				imp.Name = "D"
+				imp.Version = []int{1, 2, 3, 9, 10, 11, 99, 100, 101, 1000}[r.Intn(10)]
+			}
 			if r.Intn(6) == 0 {
 				imp.Version = -1
 			}
@@ -251,6 +260,7 @@ func runC10(c *Ctx) {
 			k.Catalog = append(k.Catalog, catalogPool[2])
 		default:
 			k.Catalog = append(k.Catalog, catalogPool...)
+			r.Shuffle(len(k.Catalog), func(a, b int) { k.Catalog[a], k.Catalog[b] = k.Catalog[b], k.Catalog[a] })
 		}
 		rc, _ := k.catalogs()
 		h := &histGen{r: r, ctx: refsym.System(), cat: rc}
@@ -386,7 +396,7 @@ func runC10(c *Ctx) {
 
 func init() {
 	Register(&Monitor{ID: "C10", Run: func(c *Ctx) {
-		c.Rule = "stream histories of 1..8 segments (version marker, replacing table with 0..2 imports and declared max_id absent/=/</>, appending table, locals with gaps and duplicates) x 6 catalog variants (nil, empty, exact, newer only, older only, all) rendered in binary (symbol ids) and text ($n, $ion_1_0), with user values referencing ids at every region boundary (last system id, first/last of each import, first/last local, max id, max id + 1 must fail). Oracle: an independent evolution of the symbol context; resolved symbol/field/annotation text, Reader.SymbolTable() (MaxID and per-id text) after every user value, table structs never surfacing, import errors. Non-trivial: >= 2 context changes and >= 1 symbol resolved after the last; distinct by rendered document."
+		c.Rule = "stream histories of 1..8 segments (version marker, replacing table with 0..2 imports and declared max_id absent/=/</>, appending table, locals with gaps and duplicates) x 6 catalog variants (nil, empty, exact, newer only, older only, all in shuffled order; one table family with versions 2, 9, 10, 100 so that the latest version is the numerically largest) rendered in binary (symbol ids) and text ($n, $ion_1_0), with user values referencing ids at every region boundary (last system id, first/last of each import, first/last local, max id, max id + 1 must fail). Oracle: an independent evolution of the symbol context; resolved symbol/field/annotation text, Reader.SymbolTable() (MaxID and per-id text) after every user value, table structs never surfacing, import errors. Non-trivial: >= 2 context changes and >= 1 symbol resolved after the last; distinct by rendered document."
 		c.Assume("gap slots and duplicate imports/symbols fields are outside the strict oracle (they are C06 robustness inputs)")
 		runC10(c)
 	}, Replay: func(c *Ctx, v *Violation) string {
